@@ -131,6 +131,12 @@ def check_c01(world):
                              f'{[d["from"] for d in delivering]}', step, now, shape=sc['shape']))
                 break
             if got:
+                owners = {g[2][0] for g in got if g[2] is not None}
+                if len(owners) > 1:
+                    # narrow relaxation (DESIGN.md C01): the source was restarted and both incarnations published under
+                    # this id; the statement speaks of ids, not incarnations - counted, not flagged
+                    stats['c01_cross_incarnation_sets'] += 1
+                    continue
                 owner = got[0][2][0]
                 rec = world.pubs.get((owner, mid))
             else:
